@@ -232,3 +232,5 @@ WORKLOADS = {"table": (_n, case_table), "cli": (_n_cli, case_cli)}
 _Q = {"cli.segmetrics[plumbing]|held": 8, "cli.bintest[plumbing]|held": 8, "segmetrics.do_segmetrics|held": 100, "segmetrics.do_segmetrics[ci-repro]|held": 50, "bintest.do_bintest|held": 100,
       "bintest.p_adjust_bh|held": 250, "CopyNumArray.residuals|held": 100}
 QUOTAS = {"quick": _Q, "thorough": _Q}
+
+INTERNAL_MONITORS = {"bintest.p_adjust_bh": [], "CopyNumArray.residuals": []}
